@@ -92,15 +92,21 @@ let judge_float op args got =
   (* expected float (value part) of an integer result *)
   let int_float mm = if neg then normalize b (int_spec b mm s e) Zar.zero else (s, e) in
   let fract_float () = if neg then normalize b (fract_sig_spec b s e) e else (Zar.zero, Zar.zero) in
+  (* the precision attached to a result (C10_result_precisions, documented at FBig::round): an integer keeps p; otherwise
+     the digits after the radix point are subtracted (saturating) or the result is a shortcut constant with precision 0;
+     the fraction carries the digit count -e (the shortcut of split_at_point for |x| < 1 returns the float itself: p) *)
+  let below1 = neg && Zar.lt (Zar.add e d) Zar.one in
+  let prec_int gp = if not neg then Zar.equal gp p else (Zar.equal gp (sat_sub p (Zar.neg e)) || (below1 && Zar.sign gp = 0)) in
+  let prec_fract ~split gp = if not neg then Zar.sign gp = 0 else (Zar.equal gp (Zar.neg e) || (split && below1 && Zar.equal gp p)) in
   let check_fl want_list got_list =
-    (* want_list: list of (sig, exp); got tokens: triples *)
+    (* want_list: list of ((sig, exp), precision test); got tokens: triples *)
     let rec go w g = match w, g with
       | [], [] -> true
-      | (ws, we) :: w', gs :: ge :: gp :: g' ->
-          z gs = ws && z ge = we && legal b (z gs) (z gp) && Zar.sign (z gp) >= 0 && go w' g'
+      | ((ws, we), pt) :: w', gs :: ge :: gp :: g' ->
+          z gs = ws && z ge = we && legal b (z gs) (z gp) && Zar.sign (z gp) >= 0 && pt (z gp) && go w' g'
       | _ -> false in
     go want_list got_list in
-  let want_fl l = "ok " ^ String.concat " " (List.map (fun (ws, we) -> hx ws ^ " " ^ hx we ^ " <prec>") l) in
+  let want_fl l = "ok " ^ String.concat " " (List.map (fun ((ws, we), _) -> hx ws ^ " " ^ hx we ^ " <documented-precision>") l) in
   let fl_verdict wants cands =
     match got with
     | "ok" :: rest when check_fl wants rest -> pass ~nt ~extra:(extra ^ fidelity cands got) ()
@@ -112,13 +118,13 @@ let judge_float op args got =
   let chk = round_fract_chk4 umax b (round_fract_sz umax b) in
   ignore rf;
   match op with
-  | "trunc" -> fl_verdict [ int_float MZero ] (fres (fun dub -> trunc_gen b dub p s e))
-  | "floor" -> fl_verdict [ int_float MDown ] (fres (fun dub -> floor_gen b dub chk p s e))
-  | "ceil" -> fl_verdict [ int_float MUp ] (fres (fun dub -> ceil_gen b dub chk p s e))
-  | "round" -> fl_verdict [ int_float MHalfAway ] (fres (fun dub -> round_gen b dub chk p s e))
-  | "fract" -> fl_verdict [ fract_float () ] (fres (fun dub -> fract_gen b dub p s e))
+  | "trunc" -> fl_verdict [ (int_float MZero, prec_int) ] (fres (fun dub -> trunc_gen b dub p s e))
+  | "floor" -> fl_verdict [ (int_float MDown, prec_int) ] (fres (fun dub -> floor_gen b dub chk p s e))
+  | "ceil" -> fl_verdict [ (int_float MUp, prec_int) ] (fres (fun dub -> ceil_gen b dub chk p s e))
+  | "round" -> fl_verdict [ (int_float MHalfAway, prec_int) ] (fres (fun dub -> round_gen b dub chk p s e))
+  | "fract" -> fl_verdict [ (fract_float (), prec_fract ~split:false) ] (fres (fun dub -> fract_gen b dub p s e))
   | "split" ->
-      fl_verdict [ int_float MZero; fract_float () ]
+      fl_verdict [ (int_float MZero, prec_int); (fract_float (), prec_fract ~split:true) ]
         (List.map (fun dub -> res_str (fun (t, f) -> fl_str t ^ " " ^ fl_str f) (split_at_point_gen b dub p s e)) dubs)
   | "to_int" ->
       let want = "ok " ^ ia_str (to_int_spec b m s e) in
@@ -132,7 +138,7 @@ let judge_float op args got =
   | "with_precision" ->
       let np = z (List.nth args 5) in
       let want = "ok " ^ ap_str np (norm_approx b (with_precision_spec b m s e np)) in
-      let cands = [ res_str (ap_str np) (with_precision_full b rf m p s e np) ] in
+      let cands = [ res_str (ap_str np) (if with_precision_rounds_gen p np then repr_round_gen b chk np m s e else Ok (AExact (s, e))) ] in
       let rounded = Zar.sign np > 0 && Zar.gt d np in
       expect ~nt:rounded ~extra:("cls=wp-" ^ (if rounded then "round" else "keep") ^ (if Zar.sign p = 0 then "-unl" else "") ^ fidelity cands got) want got
   | "wbp_same" ->
